@@ -98,7 +98,21 @@ def run_purity_metric(req):
         bad.append("write-leaves-caller-data-unchanged")
     f(np.array(req["y"], dtype=float), np.array(req["x"], dtype=float))
     v2 = float(f(np.array(req["x"], dtype=float), np.array(req["y"], dtype=float)))
-    if not (v1 == v2 or (math.isnan(v1) and math.isnan(v2))):
+    # different call histories in between: other metrics on vectors of the same length with large values, so
+    # that any scratch memory the metric re-uses without initialising it holds something else
+    n = len(x)
+    vals = [v1, v2]
+    rng = np.random.RandomState(7)
+    for rnd in range(6):
+        for name in ("euclidean", "manhattan", "canberra", "chi_squared", "squared_chord", "hassanat", "lorentzian"):
+            a = rng.uniform(1e3, 1e6, n) * (rnd + 1)
+            b = rng.uniform(1e3, 1e6, n) * (rnd + 2)
+            d.DISTANCES[name](a, b)
+        keep = [np.full(n, 1e9 * (rnd + 1)) for _ in range(8)]
+        del keep
+        vals.append(float(f(np.array(req["x"], dtype=float), np.array(req["y"], dtype=float))))
+    v2 = vals[-1]
+    if any(not (v == v1 or (math.isnan(v) and math.isnan(v1))) for v in vals):
         bad.append("value-depends-only-on-argument-values")
     return dict(obs=dict(v1=v1, v2=v2, x_after=[float(t) for t in x], y_after=[float(t) for t in y]), violated=bad)
 
